@@ -46,101 +46,101 @@ mod vharness {
         #[kani::unwind($u)]
         fn $h() { shaped::<$r, $k, $l, 1>(); }
     } }
-    //@harness name=radix_hex_k28_l1 props=C20,C01,C18 strength=bounded bound="hex string '1'^28 c '1', c any char of UTF-8 length 1" clause="parseHex total on every char at this alignment to the 32-digit window; reports the offending char" timeout=600 replay=radix_hex_shaped:28 std_failures=violation tier=thorough
+    //@harness name=radix_hex_k28_l1 props=C20,C01,C18 quickfor=C20 strength=bounded bound="hex string '1'^28 c '1', c any char of UTF-8 length 1" clause="parseHex total on every char at this alignment to the 32-digit window; reports the offending char" timeout=600 replay=radix_hex_shaped:28 std_failures=violation tier=thorough
     shaped_k!(radix_hex_k28_l1, 16, 28, 1, 42);
-    //@harness name=radix_hex_k28_l2 props=C20,C01,C18 strength=bounded bound="hex string '1'^28 c '1', c any char of UTF-8 length 2" clause="parseHex total on every char at this alignment to the 32-digit window; reports the offending char" timeout=600 replay=radix_hex_shaped:28 std_failures=violation tier=thorough
+    //@harness name=radix_hex_k28_l2 props=C20,C01,C18 quickfor=C20 strength=bounded bound="hex string '1'^28 c '1', c any char of UTF-8 length 2" clause="parseHex total on every char at this alignment to the 32-digit window; reports the offending char" timeout=600 replay=radix_hex_shaped:28 std_failures=violation tier=thorough
     shaped_k!(radix_hex_k28_l2, 16, 28, 2, 42);
-    //@harness name=radix_hex_k28_l3 props=C20,C01,C18 strength=bounded bound="hex string '1'^28 c '1', c any char of UTF-8 length 3" clause="parseHex total on every char at this alignment to the 32-digit window; reports the offending char" timeout=600 replay=radix_hex_shaped:28 std_failures=violation tier=thorough
+    //@harness name=radix_hex_k28_l3 props=C20,C01,C18 quickfor=C20 strength=bounded bound="hex string '1'^28 c '1', c any char of UTF-8 length 3" clause="parseHex total on every char at this alignment to the 32-digit window; reports the offending char" timeout=600 replay=radix_hex_shaped:28 std_failures=violation tier=thorough
     shaped_k!(radix_hex_k28_l3, 16, 28, 3, 42);
-    //@harness name=radix_hex_k28_l4 props=C20,C01,C18 strength=bounded bound="hex string '1'^28 c '1', c any char of UTF-8 length 4" clause="parseHex total on every char at this alignment to the 32-digit window; reports the offending char" timeout=600 replay=radix_hex_shaped:28 std_failures=violation tier=thorough
+    //@harness name=radix_hex_k28_l4 props=C20,C01,C18 quickfor=C20 strength=bounded bound="hex string '1'^28 c '1', c any char of UTF-8 length 4" clause="parseHex total on every char at this alignment to the 32-digit window; reports the offending char" timeout=600 replay=radix_hex_shaped:28 std_failures=violation tier=thorough
     shaped_k!(radix_hex_k28_l4, 16, 28, 4, 42);
-    //@harness name=radix_hex_k29_l1 props=C20,C01,C18 strength=bounded bound="hex string '1'^29 c '1', c any char of UTF-8 length 1" clause="parseHex total on every char at this alignment to the 32-digit window; reports the offending char" timeout=600 replay=radix_hex_shaped:29 std_failures=violation
+    //@harness name=radix_hex_k29_l1 props=C20,C01,C18 quickfor=C20 strength=bounded bound="hex string '1'^29 c '1', c any char of UTF-8 length 1" clause="parseHex total on every char at this alignment to the 32-digit window; reports the offending char" timeout=600 replay=radix_hex_shaped:29 std_failures=violation
     shaped_k!(radix_hex_k29_l1, 16, 29, 1, 42);
-    //@harness name=radix_hex_k29_l2 props=C20,C01,C18 strength=bounded bound="hex string '1'^29 c '1', c any char of UTF-8 length 2" clause="parseHex total on every char at this alignment to the 32-digit window; reports the offending char" timeout=600 replay=radix_hex_shaped:29 std_failures=violation
+    //@harness name=radix_hex_k29_l2 props=C20,C01,C18 quickfor=C20 strength=bounded bound="hex string '1'^29 c '1', c any char of UTF-8 length 2" clause="parseHex total on every char at this alignment to the 32-digit window; reports the offending char" timeout=600 replay=radix_hex_shaped:29 std_failures=violation
     shaped_k!(radix_hex_k29_l2, 16, 29, 2, 42);
-    //@harness name=radix_hex_k29_l3 props=C20,C01,C18 strength=bounded bound="hex string '1'^29 c '1', c any char of UTF-8 length 3" clause="parseHex total on every char at this alignment to the 32-digit window; reports the offending char" timeout=600 replay=radix_hex_shaped:29 std_failures=violation
+    //@harness name=radix_hex_k29_l3 props=C20,C01,C18 quickfor=C20 strength=bounded bound="hex string '1'^29 c '1', c any char of UTF-8 length 3" clause="parseHex total on every char at this alignment to the 32-digit window; reports the offending char" timeout=600 replay=radix_hex_shaped:29 std_failures=violation
     shaped_k!(radix_hex_k29_l3, 16, 29, 3, 42);
-    //@harness name=radix_hex_k29_l4 props=C20,C01,C18 strength=bounded bound="hex string '1'^29 c '1', c any char of UTF-8 length 4" clause="parseHex total on every char at this alignment to the 32-digit window; reports the offending char" timeout=600 replay=radix_hex_shaped:29 std_failures=violation
+    //@harness name=radix_hex_k29_l4 props=C20,C01,C18 quickfor=C20 strength=bounded bound="hex string '1'^29 c '1', c any char of UTF-8 length 4" clause="parseHex total on every char at this alignment to the 32-digit window; reports the offending char" timeout=600 replay=radix_hex_shaped:29 std_failures=violation
     shaped_k!(radix_hex_k29_l4, 16, 29, 4, 42);
-    //@harness name=radix_hex_k30_l1 props=C20,C01,C18 strength=bounded bound="hex string '1'^30 c '1', c any char of UTF-8 length 1" clause="parseHex total on every char at this alignment to the 32-digit window; reports the offending char" timeout=600 replay=radix_hex_shaped:30 std_failures=violation
+    //@harness name=radix_hex_k30_l1 props=C20,C01,C18 quickfor=C20 strength=bounded bound="hex string '1'^30 c '1', c any char of UTF-8 length 1" clause="parseHex total on every char at this alignment to the 32-digit window; reports the offending char" timeout=600 replay=radix_hex_shaped:30 std_failures=violation
     shaped_k!(radix_hex_k30_l1, 16, 30, 1, 42);
-    //@harness name=radix_hex_k30_l2 props=C20,C01,C18 strength=bounded bound="hex string '1'^30 c '1', c any char of UTF-8 length 2" clause="parseHex total on every char at this alignment to the 32-digit window; reports the offending char" timeout=600 replay=radix_hex_shaped:30 std_failures=violation
+    //@harness name=radix_hex_k30_l2 props=C20,C01,C18 quickfor=C20 strength=bounded bound="hex string '1'^30 c '1', c any char of UTF-8 length 2" clause="parseHex total on every char at this alignment to the 32-digit window; reports the offending char" timeout=600 replay=radix_hex_shaped:30 std_failures=violation
     shaped_k!(radix_hex_k30_l2, 16, 30, 2, 42);
     //@harness name=radix_hex_k30_l3 props=C20,C01,C18 strength=bounded bound="hex string '1'^30 c '1', c any char of UTF-8 length 3" clause="parseHex total on every char at this alignment to the 32-digit window; reports the offending char" timeout=600 replay=radix_hex_shaped:30 std_failures=violation
     shaped_k!(radix_hex_k30_l3, 16, 30, 3, 42);
-    //@harness name=radix_hex_k30_l4 props=C20,C01,C18 strength=bounded bound="hex string '1'^30 c '1', c any char of UTF-8 length 4" clause="parseHex total on every char at this alignment to the 32-digit window; reports the offending char" timeout=600 replay=radix_hex_shaped:30 std_failures=violation
+    //@harness name=radix_hex_k30_l4 props=C20,C01,C18 quickfor=C20 strength=bounded bound="hex string '1'^30 c '1', c any char of UTF-8 length 4" clause="parseHex total on every char at this alignment to the 32-digit window; reports the offending char" timeout=600 replay=radix_hex_shaped:30 std_failures=violation
     shaped_k!(radix_hex_k30_l4, 16, 30, 4, 42);
-    //@harness name=radix_hex_k31_l1 props=C20,C01,C18 strength=bounded bound="hex string '1'^31 c '1', c any char of UTF-8 length 1" clause="parseHex total on every char at this alignment to the 32-digit window; reports the offending char" timeout=600 replay=radix_hex_shaped:31 std_failures=violation
+    //@harness name=radix_hex_k31_l1 props=C20,C01,C18 quickfor=C20 strength=bounded bound="hex string '1'^31 c '1', c any char of UTF-8 length 1" clause="parseHex total on every char at this alignment to the 32-digit window; reports the offending char" timeout=600 replay=radix_hex_shaped:31 std_failures=violation
     shaped_k!(radix_hex_k31_l1, 16, 31, 1, 42);
     //@harness name=radix_hex_k31_l2 props=C20,C01,C18 strength=bounded bound="hex string '1'^31 c '1', c any char of UTF-8 length 2" clause="parseHex total on every char at this alignment to the 32-digit window; reports the offending char" timeout=600 replay=radix_hex_shaped:31 std_failures=violation
     shaped_k!(radix_hex_k31_l2, 16, 31, 2, 42);
-    //@harness name=radix_hex_k31_l3 props=C20,C01,C18 strength=bounded bound="hex string '1'^31 c '1', c any char of UTF-8 length 3" clause="parseHex total on every char at this alignment to the 32-digit window; reports the offending char" timeout=600 replay=radix_hex_shaped:31 std_failures=violation
+    //@harness name=radix_hex_k31_l3 props=C20,C01,C18 quickfor=C20 strength=bounded bound="hex string '1'^31 c '1', c any char of UTF-8 length 3" clause="parseHex total on every char at this alignment to the 32-digit window; reports the offending char" timeout=600 replay=radix_hex_shaped:31 std_failures=violation
     shaped_k!(radix_hex_k31_l3, 16, 31, 3, 42);
     //@harness name=radix_hex_k31_l4 props=C20,C01,C18 strength=bounded bound="hex string '1'^31 c '1', c any char of UTF-8 length 4" clause="parseHex total on every char at this alignment to the 32-digit window; reports the offending char" timeout=600 replay=radix_hex_shaped:31 std_failures=violation
     shaped_k!(radix_hex_k31_l4, 16, 31, 4, 42);
-    //@harness name=radix_hex_k32_l1 props=C20,C01,C18 strength=bounded bound="hex string '1'^32 c '1', c any char of UTF-8 length 1" clause="parseHex total on every char at this alignment to the 32-digit window; reports the offending char" timeout=600 replay=radix_hex_shaped:32 std_failures=violation
+    //@harness name=radix_hex_k32_l1 props=C20,C01,C18 quickfor=C20 strength=bounded bound="hex string '1'^32 c '1', c any char of UTF-8 length 1" clause="parseHex total on every char at this alignment to the 32-digit window; reports the offending char" timeout=600 replay=radix_hex_shaped:32 std_failures=violation
     shaped_k!(radix_hex_k32_l1, 16, 32, 1, 42);
     //@harness name=radix_hex_k32_l2 props=C20,C01,C18 strength=bounded bound="hex string '1'^32 c '1', c any char of UTF-8 length 2" clause="parseHex total on every char at this alignment to the 32-digit window; reports the offending char" timeout=600 replay=radix_hex_shaped:32 std_failures=violation
     shaped_k!(radix_hex_k32_l2, 16, 32, 2, 42);
-    //@harness name=radix_hex_k32_l3 props=C20,C01,C18 strength=bounded bound="hex string '1'^32 c '1', c any char of UTF-8 length 3" clause="parseHex total on every char at this alignment to the 32-digit window; reports the offending char" timeout=600 replay=radix_hex_shaped:32 std_failures=violation
+    //@harness name=radix_hex_k32_l3 props=C20,C01,C18 quickfor=C20 strength=bounded bound="hex string '1'^32 c '1', c any char of UTF-8 length 3" clause="parseHex total on every char at this alignment to the 32-digit window; reports the offending char" timeout=600 replay=radix_hex_shaped:32 std_failures=violation
     shaped_k!(radix_hex_k32_l3, 16, 32, 3, 42);
-    //@harness name=radix_hex_k32_l4 props=C20,C01,C18 strength=bounded bound="hex string '1'^32 c '1', c any char of UTF-8 length 4" clause="parseHex total on every char at this alignment to the 32-digit window; reports the offending char" timeout=600 replay=radix_hex_shaped:32 std_failures=violation
+    //@harness name=radix_hex_k32_l4 props=C20,C01,C18 quickfor=C20 strength=bounded bound="hex string '1'^32 c '1', c any char of UTF-8 length 4" clause="parseHex total on every char at this alignment to the 32-digit window; reports the offending char" timeout=600 replay=radix_hex_shaped:32 std_failures=violation
     shaped_k!(radix_hex_k32_l4, 16, 32, 4, 42);
-    //@harness name=radix_hex_k33_l1 props=C20,C01,C18 strength=bounded bound="hex string '1'^33 c '1', c any char of UTF-8 length 1" clause="parseHex total on every char at this alignment to the 32-digit window; reports the offending char" timeout=600 replay=radix_hex_shaped:33 std_failures=violation tier=thorough
+    //@harness name=radix_hex_k33_l1 props=C20,C01,C18 quickfor=C20 strength=bounded bound="hex string '1'^33 c '1', c any char of UTF-8 length 1" clause="parseHex total on every char at this alignment to the 32-digit window; reports the offending char" timeout=600 replay=radix_hex_shaped:33 std_failures=violation tier=thorough
     shaped_k!(radix_hex_k33_l1, 16, 33, 1, 42);
-    //@harness name=radix_hex_k33_l2 props=C20,C01,C18 strength=bounded bound="hex string '1'^33 c '1', c any char of UTF-8 length 2" clause="parseHex total on every char at this alignment to the 32-digit window; reports the offending char" timeout=600 replay=radix_hex_shaped:33 std_failures=violation tier=thorough
+    //@harness name=radix_hex_k33_l2 props=C20,C01,C18 quickfor=C20 strength=bounded bound="hex string '1'^33 c '1', c any char of UTF-8 length 2" clause="parseHex total on every char at this alignment to the 32-digit window; reports the offending char" timeout=600 replay=radix_hex_shaped:33 std_failures=violation tier=thorough
     shaped_k!(radix_hex_k33_l2, 16, 33, 2, 42);
-    //@harness name=radix_hex_k33_l3 props=C20,C01,C18 strength=bounded bound="hex string '1'^33 c '1', c any char of UTF-8 length 3" clause="parseHex total on every char at this alignment to the 32-digit window; reports the offending char" timeout=600 replay=radix_hex_shaped:33 std_failures=violation tier=thorough
+    //@harness name=radix_hex_k33_l3 props=C20,C01,C18 quickfor=C20 strength=bounded bound="hex string '1'^33 c '1', c any char of UTF-8 length 3" clause="parseHex total on every char at this alignment to the 32-digit window; reports the offending char" timeout=600 replay=radix_hex_shaped:33 std_failures=violation tier=thorough
     shaped_k!(radix_hex_k33_l3, 16, 33, 3, 42);
-    //@harness name=radix_hex_k33_l4 props=C20,C01,C18 strength=bounded bound="hex string '1'^33 c '1', c any char of UTF-8 length 4" clause="parseHex total on every char at this alignment to the 32-digit window; reports the offending char" timeout=600 replay=radix_hex_shaped:33 std_failures=violation tier=thorough
+    //@harness name=radix_hex_k33_l4 props=C20,C01,C18 quickfor=C20 strength=bounded bound="hex string '1'^33 c '1', c any char of UTF-8 length 4" clause="parseHex total on every char at this alignment to the 32-digit window; reports the offending char" timeout=600 replay=radix_hex_shaped:33 std_failures=violation tier=thorough
     shaped_k!(radix_hex_k33_l4, 16, 33, 4, 42);
-    //@harness name=radix_oct_k38_l1 props=C20,C01,C18 strength=bounded bound="octal string '1'^38 c '1', c any char of UTF-8 length 1" clause="parseOctal total on every char at this alignment to the 42-digit window" timeout=600 replay=radix_oct_shaped:38 std_failures=violation tier=thorough
+    //@harness name=radix_oct_k38_l1 props=C20,C01,C18 quickfor=C20 strength=bounded bound="octal string '1'^38 c '1', c any char of UTF-8 length 1" clause="parseOctal total on every char at this alignment to the 42-digit window" timeout=600 replay=radix_oct_shaped:38 std_failures=violation tier=thorough
     shaped_k!(radix_oct_k38_l1, 8, 38, 1, 52);
-    //@harness name=radix_oct_k38_l2 props=C20,C01,C18 strength=bounded bound="octal string '1'^38 c '1', c any char of UTF-8 length 2" clause="parseOctal total on every char at this alignment to the 42-digit window" timeout=600 replay=radix_oct_shaped:38 std_failures=violation tier=thorough
+    //@harness name=radix_oct_k38_l2 props=C20,C01,C18 quickfor=C20 strength=bounded bound="octal string '1'^38 c '1', c any char of UTF-8 length 2" clause="parseOctal total on every char at this alignment to the 42-digit window" timeout=600 replay=radix_oct_shaped:38 std_failures=violation tier=thorough
     shaped_k!(radix_oct_k38_l2, 8, 38, 2, 52);
-    //@harness name=radix_oct_k38_l3 props=C20,C01,C18 strength=bounded bound="octal string '1'^38 c '1', c any char of UTF-8 length 3" clause="parseOctal total on every char at this alignment to the 42-digit window" timeout=600 replay=radix_oct_shaped:38 std_failures=violation tier=thorough
+    //@harness name=radix_oct_k38_l3 props=C20,C01,C18 quickfor=C20 strength=bounded bound="octal string '1'^38 c '1', c any char of UTF-8 length 3" clause="parseOctal total on every char at this alignment to the 42-digit window" timeout=600 replay=radix_oct_shaped:38 std_failures=violation tier=thorough
     shaped_k!(radix_oct_k38_l3, 8, 38, 3, 52);
-    //@harness name=radix_oct_k38_l4 props=C20,C01,C18 strength=bounded bound="octal string '1'^38 c '1', c any char of UTF-8 length 4" clause="parseOctal total on every char at this alignment to the 42-digit window" timeout=600 replay=radix_oct_shaped:38 std_failures=violation tier=thorough
+    //@harness name=radix_oct_k38_l4 props=C20,C01,C18 quickfor=C20 strength=bounded bound="octal string '1'^38 c '1', c any char of UTF-8 length 4" clause="parseOctal total on every char at this alignment to the 42-digit window" timeout=600 replay=radix_oct_shaped:38 std_failures=violation tier=thorough
     shaped_k!(radix_oct_k38_l4, 8, 38, 4, 52);
-    //@harness name=radix_oct_k39_l1 props=C20,C01,C18 strength=bounded bound="octal string '1'^39 c '1', c any char of UTF-8 length 1" clause="parseOctal total on every char at this alignment to the 42-digit window" timeout=600 replay=radix_oct_shaped:39 std_failures=violation tier=thorough
+    //@harness name=radix_oct_k39_l1 props=C20,C01,C18 quickfor=C20 strength=bounded bound="octal string '1'^39 c '1', c any char of UTF-8 length 1" clause="parseOctal total on every char at this alignment to the 42-digit window" timeout=600 replay=radix_oct_shaped:39 std_failures=violation tier=thorough
     shaped_k!(radix_oct_k39_l1, 8, 39, 1, 52);
-    //@harness name=radix_oct_k39_l2 props=C20,C01,C18 strength=bounded bound="octal string '1'^39 c '1', c any char of UTF-8 length 2" clause="parseOctal total on every char at this alignment to the 42-digit window" timeout=600 replay=radix_oct_shaped:39 std_failures=violation tier=thorough
+    //@harness name=radix_oct_k39_l2 props=C20,C01,C18 quickfor=C20 strength=bounded bound="octal string '1'^39 c '1', c any char of UTF-8 length 2" clause="parseOctal total on every char at this alignment to the 42-digit window" timeout=600 replay=radix_oct_shaped:39 std_failures=violation tier=thorough
     shaped_k!(radix_oct_k39_l2, 8, 39, 2, 52);
-    //@harness name=radix_oct_k39_l3 props=C20,C01,C18 strength=bounded bound="octal string '1'^39 c '1', c any char of UTF-8 length 3" clause="parseOctal total on every char at this alignment to the 42-digit window" timeout=600 replay=radix_oct_shaped:39 std_failures=violation tier=thorough
+    //@harness name=radix_oct_k39_l3 props=C20,C01,C18 quickfor=C20 strength=bounded bound="octal string '1'^39 c '1', c any char of UTF-8 length 3" clause="parseOctal total on every char at this alignment to the 42-digit window" timeout=600 replay=radix_oct_shaped:39 std_failures=violation tier=thorough
     shaped_k!(radix_oct_k39_l3, 8, 39, 3, 52);
-    //@harness name=radix_oct_k39_l4 props=C20,C01,C18 strength=bounded bound="octal string '1'^39 c '1', c any char of UTF-8 length 4" clause="parseOctal total on every char at this alignment to the 42-digit window" timeout=600 replay=radix_oct_shaped:39 std_failures=violation tier=thorough
+    //@harness name=radix_oct_k39_l4 props=C20,C01,C18 quickfor=C20 strength=bounded bound="octal string '1'^39 c '1', c any char of UTF-8 length 4" clause="parseOctal total on every char at this alignment to the 42-digit window" timeout=600 replay=radix_oct_shaped:39 std_failures=violation tier=thorough
     shaped_k!(radix_oct_k39_l4, 8, 39, 4, 52);
-    //@harness name=radix_oct_k40_l1 props=C20,C01,C18 strength=bounded bound="octal string '1'^40 c '1', c any char of UTF-8 length 1" clause="parseOctal total on every char at this alignment to the 42-digit window" timeout=600 replay=radix_oct_shaped:40 std_failures=violation tier=thorough
+    //@harness name=radix_oct_k40_l1 props=C20,C01,C18 quickfor=C20 strength=bounded bound="octal string '1'^40 c '1', c any char of UTF-8 length 1" clause="parseOctal total on every char at this alignment to the 42-digit window" timeout=600 replay=radix_oct_shaped:40 std_failures=violation tier=thorough
     shaped_k!(radix_oct_k40_l1, 8, 40, 1, 52);
-    //@harness name=radix_oct_k40_l2 props=C20,C01,C18 strength=bounded bound="octal string '1'^40 c '1', c any char of UTF-8 length 2" clause="parseOctal total on every char at this alignment to the 42-digit window" timeout=600 replay=radix_oct_shaped:40 std_failures=violation tier=thorough
+    //@harness name=radix_oct_k40_l2 props=C20,C01,C18 quickfor=C20 strength=bounded bound="octal string '1'^40 c '1', c any char of UTF-8 length 2" clause="parseOctal total on every char at this alignment to the 42-digit window" timeout=600 replay=radix_oct_shaped:40 std_failures=violation tier=thorough
     shaped_k!(radix_oct_k40_l2, 8, 40, 2, 52);
-    //@harness name=radix_oct_k40_l3 props=C20,C01,C18 strength=bounded bound="octal string '1'^40 c '1', c any char of UTF-8 length 3" clause="parseOctal total on every char at this alignment to the 42-digit window" timeout=600 replay=radix_oct_shaped:40 std_failures=violation tier=thorough
+    //@harness name=radix_oct_k40_l3 props=C20,C01,C18 quickfor=C20 strength=bounded bound="octal string '1'^40 c '1', c any char of UTF-8 length 3" clause="parseOctal total on every char at this alignment to the 42-digit window" timeout=600 replay=radix_oct_shaped:40 std_failures=violation tier=thorough
     shaped_k!(radix_oct_k40_l3, 8, 40, 3, 52);
-    //@harness name=radix_oct_k40_l4 props=C20,C01,C18 strength=bounded bound="octal string '1'^40 c '1', c any char of UTF-8 length 4" clause="parseOctal total on every char at this alignment to the 42-digit window" timeout=600 replay=radix_oct_shaped:40 std_failures=violation tier=thorough
+    //@harness name=radix_oct_k40_l4 props=C20,C01,C18 quickfor=C20 strength=bounded bound="octal string '1'^40 c '1', c any char of UTF-8 length 4" clause="parseOctal total on every char at this alignment to the 42-digit window" timeout=600 replay=radix_oct_shaped:40 std_failures=violation tier=thorough
     shaped_k!(radix_oct_k40_l4, 8, 40, 4, 52);
-    //@harness name=radix_oct_k41_l1 props=C20,C01,C18 strength=bounded bound="octal string '1'^41 c '1', c any char of UTF-8 length 1" clause="parseOctal total on every char at this alignment to the 42-digit window" timeout=600 replay=radix_oct_shaped:41 std_failures=violation tier=thorough
+    //@harness name=radix_oct_k41_l1 props=C20,C01,C18 quickfor=C20 strength=bounded bound="octal string '1'^41 c '1', c any char of UTF-8 length 1" clause="parseOctal total on every char at this alignment to the 42-digit window" timeout=600 replay=radix_oct_shaped:41 std_failures=violation tier=thorough
     shaped_k!(radix_oct_k41_l1, 8, 41, 1, 52);
-    //@harness name=radix_oct_k41_l2 props=C20,C01,C18 strength=bounded bound="octal string '1'^41 c '1', c any char of UTF-8 length 2" clause="parseOctal total on every char at this alignment to the 42-digit window" timeout=600 replay=radix_oct_shaped:41 std_failures=violation tier=thorough
+    //@harness name=radix_oct_k41_l2 props=C20,C01,C18 quickfor=C20 strength=bounded bound="octal string '1'^41 c '1', c any char of UTF-8 length 2" clause="parseOctal total on every char at this alignment to the 42-digit window" timeout=600 replay=radix_oct_shaped:41 std_failures=violation tier=thorough
     shaped_k!(radix_oct_k41_l2, 8, 41, 2, 52);
-    //@harness name=radix_oct_k41_l3 props=C20,C01,C18 strength=bounded bound="octal string '1'^41 c '1', c any char of UTF-8 length 3" clause="parseOctal total on every char at this alignment to the 42-digit window" timeout=600 replay=radix_oct_shaped:41 std_failures=violation tier=thorough
+    //@harness name=radix_oct_k41_l3 props=C20,C01,C18 quickfor=C20 strength=bounded bound="octal string '1'^41 c '1', c any char of UTF-8 length 3" clause="parseOctal total on every char at this alignment to the 42-digit window" timeout=600 replay=radix_oct_shaped:41 std_failures=violation tier=thorough
     shaped_k!(radix_oct_k41_l3, 8, 41, 3, 52);
-    //@harness name=radix_oct_k41_l4 props=C20,C01,C18 strength=bounded bound="octal string '1'^41 c '1', c any char of UTF-8 length 4" clause="parseOctal total on every char at this alignment to the 42-digit window" timeout=600 replay=radix_oct_shaped:41 std_failures=violation tier=thorough
+    //@harness name=radix_oct_k41_l4 props=C20,C01,C18 quickfor=C20 strength=bounded bound="octal string '1'^41 c '1', c any char of UTF-8 length 4" clause="parseOctal total on every char at this alignment to the 42-digit window" timeout=600 replay=radix_oct_shaped:41 std_failures=violation tier=thorough
     shaped_k!(radix_oct_k41_l4, 8, 41, 4, 52);
-    //@harness name=radix_oct_k42_l1 props=C20,C01,C18 strength=bounded bound="octal string '1'^42 c '1', c any char of UTF-8 length 1" clause="parseOctal total on every char at this alignment to the 42-digit window" timeout=600 replay=radix_oct_shaped:42 std_failures=violation tier=thorough
+    //@harness name=radix_oct_k42_l1 props=C20,C01,C18 quickfor=C20 strength=bounded bound="octal string '1'^42 c '1', c any char of UTF-8 length 1" clause="parseOctal total on every char at this alignment to the 42-digit window" timeout=600 replay=radix_oct_shaped:42 std_failures=violation tier=thorough
     shaped_k!(radix_oct_k42_l1, 8, 42, 1, 52);
-    //@harness name=radix_oct_k42_l2 props=C20,C01,C18 strength=bounded bound="octal string '1'^42 c '1', c any char of UTF-8 length 2" clause="parseOctal total on every char at this alignment to the 42-digit window" timeout=600 replay=radix_oct_shaped:42 std_failures=violation tier=thorough
+    //@harness name=radix_oct_k42_l2 props=C20,C01,C18 quickfor=C20 strength=bounded bound="octal string '1'^42 c '1', c any char of UTF-8 length 2" clause="parseOctal total on every char at this alignment to the 42-digit window" timeout=600 replay=radix_oct_shaped:42 std_failures=violation tier=thorough
     shaped_k!(radix_oct_k42_l2, 8, 42, 2, 52);
-    //@harness name=radix_oct_k42_l3 props=C20,C01,C18 strength=bounded bound="octal string '1'^42 c '1', c any char of UTF-8 length 3" clause="parseOctal total on every char at this alignment to the 42-digit window" timeout=600 replay=radix_oct_shaped:42 std_failures=violation tier=thorough
+    //@harness name=radix_oct_k42_l3 props=C20,C01,C18 quickfor=C20 strength=bounded bound="octal string '1'^42 c '1', c any char of UTF-8 length 3" clause="parseOctal total on every char at this alignment to the 42-digit window" timeout=600 replay=radix_oct_shaped:42 std_failures=violation tier=thorough
     shaped_k!(radix_oct_k42_l3, 8, 42, 3, 52);
-    //@harness name=radix_oct_k42_l4 props=C20,C01,C18 strength=bounded bound="octal string '1'^42 c '1', c any char of UTF-8 length 4" clause="parseOctal total on every char at this alignment to the 42-digit window" timeout=600 replay=radix_oct_shaped:42 std_failures=violation tier=thorough
+    //@harness name=radix_oct_k42_l4 props=C20,C01,C18 quickfor=C20 strength=bounded bound="octal string '1'^42 c '1', c any char of UTF-8 length 4" clause="parseOctal total on every char at this alignment to the 42-digit window" timeout=600 replay=radix_oct_shaped:42 std_failures=violation tier=thorough
     shaped_k!(radix_oct_k42_l4, 8, 42, 4, 52);
-    //@harness name=radix_oct_k43_l1 props=C20,C01,C18 strength=bounded bound="octal string '1'^43 c '1', c any char of UTF-8 length 1" clause="parseOctal total on every char at this alignment to the 42-digit window" timeout=600 replay=radix_oct_shaped:43 std_failures=violation tier=thorough
+    //@harness name=radix_oct_k43_l1 props=C20,C01,C18 quickfor=C20 strength=bounded bound="octal string '1'^43 c '1', c any char of UTF-8 length 1" clause="parseOctal total on every char at this alignment to the 42-digit window" timeout=600 replay=radix_oct_shaped:43 std_failures=violation tier=thorough
     shaped_k!(radix_oct_k43_l1, 8, 43, 1, 52);
-    //@harness name=radix_oct_k43_l2 props=C20,C01,C18 strength=bounded bound="octal string '1'^43 c '1', c any char of UTF-8 length 2" clause="parseOctal total on every char at this alignment to the 42-digit window" timeout=600 replay=radix_oct_shaped:43 std_failures=violation tier=thorough
+    //@harness name=radix_oct_k43_l2 props=C20,C01,C18 quickfor=C20 strength=bounded bound="octal string '1'^43 c '1', c any char of UTF-8 length 2" clause="parseOctal total on every char at this alignment to the 42-digit window" timeout=600 replay=radix_oct_shaped:43 std_failures=violation tier=thorough
     shaped_k!(radix_oct_k43_l2, 8, 43, 2, 52);
-    //@harness name=radix_oct_k43_l3 props=C20,C01,C18 strength=bounded bound="octal string '1'^43 c '1', c any char of UTF-8 length 3" clause="parseOctal total on every char at this alignment to the 42-digit window" timeout=600 replay=radix_oct_shaped:43 std_failures=violation tier=thorough
+    //@harness name=radix_oct_k43_l3 props=C20,C01,C18 quickfor=C20 strength=bounded bound="octal string '1'^43 c '1', c any char of UTF-8 length 3" clause="parseOctal total on every char at this alignment to the 42-digit window" timeout=600 replay=radix_oct_shaped:43 std_failures=violation tier=thorough
     shaped_k!(radix_oct_k43_l3, 8, 43, 3, 52);
-    //@harness name=radix_oct_k43_l4 props=C20,C01,C18 strength=bounded bound="octal string '1'^43 c '1', c any char of UTF-8 length 4" clause="parseOctal total on every char at this alignment to the 42-digit window" timeout=600 replay=radix_oct_shaped:43 std_failures=violation tier=thorough
+    //@harness name=radix_oct_k43_l4 props=C20,C01,C18 quickfor=C20 strength=bounded bound="octal string '1'^43 c '1', c any char of UTF-8 length 4" clause="parseOctal total on every char at this alignment to the 42-digit window" timeout=600 replay=radix_oct_shaped:43 std_failures=violation tier=thorough
     shaped_k!(radix_oct_k43_l4, 8, 43, 4, 52);
 
     fn hexval(b: u8) -> Option<u32> {
